@@ -16,15 +16,16 @@ def keyfn(case, res, m):
 
 def run(chk):
     chk.audit(PROPS)
-    n = 70 if chk.tier == 'quick' else 2500
+    n = 120 if chk.tier == 'quick' else 1500
     core.e1_flow(chk, 'scen_refcount', 'refcount', {'C13'},
                  lambda rng: scen_refcount.gen_case(rng, chk.tier),
                  n, keyfn=keyfn, sched=False, engine='E4-manager-processes+lean',
                  corpus=scen_refcount.boundary_cases(), escalate_n=60 if chk.tier == 'quick' else 600)
     chk.cov['rule'] = (
         'cases = random histories (quick: <= 12 operations + wind-down, thorough: <= 60) over {create, pickle, '
-        'unpickle once, pass to a spawned child (mpservice or stdlib spawn Process), store in / pop / del / read / '
-        'clear on hosted list and dict, managed() returns (list, dict, memory block, bundle, view of an existing '
+        'unpickle once, pass to a spawned child (mpservice or stdlib spawn Process; proxies dropped before or still held '
+        'at exit), store in / extend / pop / del / read one / read all / clear on hosted list and dict, pass as an '
+        'argument to a method that returns or raises without keeping it, managed() returns (list, dict, memory block, bundle, view of an existing '
         'object, method_to_typeid), delete proxy, child exits} issued by the director and 1-7 client processes '
         'against a real ServerProcess; after every step the server table (debug_info ids/refcounts), /dev/shm files '
         'and a call through every live proxy are checked; the same history and the observed tables are replayed '
